@@ -9,6 +9,7 @@
 #include "dxcore.hpp"
 #include "pool.hpp"
 #include <memory>
+#include <bxdecay0/mdl_event_op.h>
 
 using bxdecay0::decay0_generator;
 
@@ -20,6 +21,12 @@ static void configure(decay0_generator & g, const Config & c)
     g.set_decay_dbd_level(c.level);
     g.set_decay_dbd_mode((bxdecay0::dbd_mode_type)c.mode);
     if (c.window()) g.set_decay_dbd_esum_range(c.e1, c.e2);
+  }
+  if (c.pre == "MDL") {
+    // a registered post-generation operation (must be dropped by reset and re-registered exactly once)
+    auto op = std::make_shared<bxdecay0::momentum_direction_lock_event_op>();
+    op->set(bxdecay0::INVALID_PARTICLE, 0, 1.0, 0.0, 0.0, 0.5, false);
+    g.add_operation(op);
   }
 }
 
@@ -49,11 +56,11 @@ static Ev to_ev(const bxdecay0::event & ev, size_t ndraws)
   return e;
 }
 
-static Ev shoot_into(decay0_generator & g, bxdecay0::event & ev, uint64_t phase)
+static Ev shoot_into(decay0_generator & g, bxdecay0::event & ev, uint64_t phase, const Forced * forced = nullptr)
 {
   Forced none;
   PortRand r;
-  r.s.forced = &none;
+  r.s.forced = forced ? forced : &none;
   r.s.phase = phase;
   r.horizon = 300000;
   try {
@@ -145,15 +152,14 @@ struct Ctx {
       init(B);
       bxdecay0::event ev;
       shoot_into(B, ev, ph);
-      shoot_into(B, ev, ph + 1);
+      shoot_into(B, E, ph + 1); // the other instance also recycles the shared event object
       break;
     }
     case 9: {
       keep.emplace_back(new decay0_generator);
       configure(*keep.back(), other);
       init(*keep.back());
-      bxdecay0::event ev;
-      shoot_into(*keep.back(), ev, ph);
+      shoot_into(*keep.back(), E, ph); // into the shared, recycled event object
       break;
     }
     case 10: A.reset(); build(); break;
@@ -162,6 +168,103 @@ struct Ctx {
 };
 
 static const uint64_t PROBES[3] = {101, 202, 303};
+
+// The canonical event of a probe is produced in a pristine process (forked child: fresh generator -> initialise ->
+// one shot), so that process-global state left by other shots cannot leak into the reference itself.
+static bool canonical_in_child(const Config & c, uint64_t phase, const Forced * forced, Ev & out, bxdecay0::bbpars * pars_out = nullptr)
+{
+  int pfd[2];
+  if (pipe(pfd)) return false;
+  pid_t p = fork();
+  if (p == 0) {
+    close(pfd[0]);
+    alarm(300);
+    Ev e;
+    bxdecay0::bbpars pars;
+    int ok = 1;
+    try {
+      decay0_generator g;
+      configure(g, c);
+      init(g);
+      pars = g.get_bb_params();
+      bxdecay0::event ev;
+      e = shoot_into(g, ev, phase, forced);
+    } catch (std::exception &) {
+      ok = 0;
+    }
+    std::string buf;
+    auto put = [&](const void * d, size_t n) { buf.append((const char *)d, n); };
+    size_t n = e.code.size();
+    int flags = ok | (e.threw ? 2 : 0) | (e.horizon ? 4 : 0);
+    put(&flags, sizeof flags);
+    put(&n, sizeof n);
+    put(&e.ndraws, sizeof e.ndraws);
+    put(&e.evtime, sizeof e.evtime);
+    for (size_t k = 0; k < n; k++) {
+      put(&e.code[k], sizeof(int));
+      put(&e.t[k], 8); put(&e.px[k], 8); put(&e.py[k], 8); put(&e.pz[k], 8);
+    }
+    size_t ls = e.label.size();
+    put(&ls, sizeof ls);
+    put(e.label.data(), ls);
+    if (pars_out) {
+      // plain fields and the table only (the struct holds a stream and strings)
+      double f[10] = {pars.Qbb, pars.Edlevel, pars.EK, pars.Zdbb, pars.Adbb, pars.spmax, pars.toallevents, pars.ebb1, pars.ebb2, pars.e0};
+      int g4[4] = {pars.modebb, pars.levelE, pars.itrans02, pars.istartbb};
+      put(f, sizeof f);
+      put(g4, sizeof g4);
+      put(pars.spthe1, sizeof pars.spthe1);
+    }
+    size_t off = 0;
+    while (off < buf.size()) {
+      ssize_t w = write(pfd[1], buf.data() + off, buf.size() - off);
+      if (w <= 0) break;
+      off += w;
+    }
+    _exit(0);
+  }
+  close(pfd[1]);
+  std::string buf;
+  char b[65536];
+  ssize_t r;
+  while ((r = read(pfd[0], b, sizeof b)) > 0) buf.append(b, r);
+  close(pfd[0]);
+  int st;
+  waitpid(p, &st, 0);
+  if (!WIFEXITED(st) || WEXITSTATUS(st) != 0 || buf.size() < sizeof(int) + 2 * sizeof(size_t)) return false;
+  size_t off = 0;
+  auto get = [&](void * d, size_t n) { memcpy(d, buf.data() + off, n); off += n; };
+  int flags;
+  size_t n;
+  get(&flags, sizeof flags);
+  get(&n, sizeof n);
+  Ev e;
+  get(&e.ndraws, sizeof e.ndraws);
+  get(&e.evtime, sizeof e.evtime);
+  e.code.resize(n); e.t.resize(n); e.px.resize(n); e.py.resize(n); e.pz.resize(n);
+  for (size_t k = 0; k < n; k++) {
+    get(&e.code[k], sizeof(int));
+    get(&e.t[k], 8); get(&e.px[k], 8); get(&e.py[k], 8); get(&e.pz[k], 8);
+  }
+  size_t ls;
+  get(&ls, sizeof ls);
+  e.label.assign(buf.data() + off, ls);
+  off += ls;
+  e.threw = flags & 2;
+  e.horizon = flags & 4;
+  if (pars_out) {
+    double f[10];
+    int g4[4];
+    get(f, sizeof f);
+    get(g4, sizeof g4);
+    pars_out->Qbb = f[0]; pars_out->Edlevel = f[1]; pars_out->EK = f[2]; pars_out->Zdbb = f[3]; pars_out->Adbb = f[4]; pars_out->spmax = f[5];
+    pars_out->toallevents = f[6]; pars_out->ebb1 = f[7]; pars_out->ebb2 = f[8]; pars_out->e0 = f[9];
+    pars_out->modebb = g4[0]; pars_out->levelE = g4[1]; pars_out->itrans02 = g4[2]; pars_out->istartbb = g4[3];
+    get(pars_out->spthe1, sizeof pars_out->spthe1);
+  }
+  out = e;
+  return flags & 1;
+}
 
 static std::string run_config(const Config & c, int depth, long nlong)
 {
@@ -180,24 +283,37 @@ static std::string run_config(const Config & c, int depth, long nlong)
   Ev canon[3];
   bxdecay0::bbpars canon_pars;
   int canon_np_max = 0;
-  try {
-    decay0_generator g;
-    configure(g, c);
-    init(g);
-    canon_pars = g.get_bb_params();
-    for (int q = 0; q < 3; q++) {
-      decay0_generator g2;
-      configure(g2, c);
-      init(g2);
-      bxdecay0::event ev;
-      canon[q] = shoot_into(g2, ev, PROBES[q]);
-      canon_np_max = std::max(canon_np_max, (int)canon[q].code.size());
-      if (canon[q].threw || canon[q].horizon) return "{\"key\":" + vx::jstr(c.key()) + ",\"error\":\"canonical probe failed\"}";
-    }
-  } catch (std::exception & e) {
-    return "{\"key\":" + vx::jstr(c.key()) + ",\"error\":" + vx::jstr(std::string("configuration does not initialise: ") + e.what()) + "}";
+  for (int q = 0; q < 3; q++) {
+    if (!canonical_in_child(c, PROBES[q], nullptr, canon[q], q == 0 ? &canon_pars : nullptr))
+      return "{\"key\":" + vx::jstr(c.key()) + ",\"error\":\"configuration does not initialise in a pristine process\"}";
+    canon_np_max = std::max(canon_np_max, (int)canon[q].code.size());
+    if (canon[q].threw || canon[q].horizon) return "{\"key\":" + vx::jstr(c.key()) + ",\"error\":\"canonical probe failed\"}";
+  }
+  // steered probes: stream 0 with each single deviate position forced into a tail or the middle, so that rare
+  // branches (and the code that only they reach) are probed after every history as well
+  std::vector<Forced> steer;
+  std::vector<Ev> steer_canon;
+  {
+    size_t nd = std::min<size_t>(canon[0].ndraws, 40);
+    for (size_t i = 0; i < nd; i++)
+      for (double v : {1e-12, 0.5, 1 - 1e-12}) {
+        Forced f;
+        f[i] = v;
+        Ev e;
+        if (!canonical_in_child(c, PROBES[0], &f, e)) continue;
+        if (e.threw || e.horizon) continue;
+        steer.push_back(f);
+        steer_canon.push_back(e);
+      }
   }
   auto probe_all = [&](Ctx & X, const std::string & hist) {
+    for (size_t k = 0; k < steer.size(); k++) {
+      bxdecay0::event ev;
+      Ev e = shoot_into(*X.A, ev, PROBES[0], &steer[k]);
+      probes++;
+      if (!same_ev(e, steer_canon[k]))
+        V("probe-steered", hist, "probe shot with deviate " + vx::forced_to_json(steer[k]) + " forced (stream " + std::to_string(PROBES[0]) + ") differs from the canonical history's");
+    }
     // probes into fresh events, for each recorded stream
     for (int q = 0; q < 3; q++) {
       bxdecay0::event ev;
@@ -266,7 +382,7 @@ static std::string run_config(const Config & c, int depth, long nlong)
         nl++;
       }
       probe_all(X, "initialise ; " + std::to_string(nlong) + " shots (default streams)");
-      if ((long)X.A->get_event_count() != nlong + 9) V("count", "long", "event counter after the long history is " + std::to_string(X.A->get_event_count()));
+      if ((long)X.A->get_event_count() != nlong + 9 + (long)steer.size()) V("count", "long", "event counter after the long history is " + std::to_string(X.A->get_event_count()));
     } catch (std::exception & e) {
       V("exception", "long history", std::string("unexpected exception: ") + e.what());
     }
@@ -311,6 +427,9 @@ int main(int argc, char ** argv)
       if (!(is >> d >> c.cat >> c.name)) continue;
       c.level = 0; c.mode = 0; c.e1 = c.e2 = -1;
       is >> c.level >> c.mode >> c.e1 >> c.e2;
+      is.clear();
+      std::string tag;
+      if (is >> tag) c.pre = tag;
       cfgs.push_back(c);
       depths.push_back(d > 0 ? d : depth);
     }
